@@ -585,7 +585,7 @@ impl InstrFormat for InstrFormat06 {
             Err(e) => return Err(e),
         };
 
-        let opcode = f.read_i8()?;
+        let opcode = f.read_u8()?;
         let argsize = f.read_u8()? as usize;
         let args_blob = f.read_byte_vec(argsize)?;
         let instr = RawInstr { time, opcode: opcode as u16, param_mask: 0, args_blob, ..RawInstr::DEFAULTS };
